@@ -469,3 +469,13 @@ def run(repo: Repo, rep: Report) -> None:  # noqa: F811
                        "copied, then extended" if copied else "%s aliases %s and is then extended in place (%s): the change is visible through the other object as well" % (owner, norm(src), norm(muts[0])[:50]), node=a)
     if n_sites == 0:
         raise AnalysisError("no inherited-and-extended container found in the parser modules (rdfxml literal_element_start was one)")
+
+
+_run_before_borrow = run
+
+
+def run(repo: Repo, rep: Report) -> None:  # noqa: F811
+    _run_before_borrow(repo, rep)
+    from vlib.core import borrow
+
+    borrow(repo, rep, "C05", "C12", ('C12.b2',))
